@@ -52,6 +52,12 @@ func runC12(c *Ctx) {
 			r := root.Fork(uint64(i))
 			sw = GenScopeWS(r, ScopeCfg{NFiles: r.Range(1, 3), Depth: r.Range(2, 3), Stats: r.Range(2, 5), JoinPct: -1, GluePct: -1})
 		}
+		if !sw.Loose && root.Fork(uint64(i)).Fork(0x72657175).Chance(1, 5) {
+			if sw2, n := sw.WithRequireOfModuleNamedLikeAGlobal(root.Fork(uint64(i)).Fork(0x72657176)); n != "" {
+				sw = sw2
+				c.Count("workspaces_that_require_a_module_named_like_a_global_they_use", 1)
+			}
+		}
 		if !sw.Loose && len(sw.Files) >= 2 && root.Fork(uint64(i)).Fork(0x726f6f74).Chance(1, 8) {
 			sw.Reroot([]string{"rootA", "rootB"}) // the files are spread over two workspace folders next to each other
 			c.Count("multi_root_workspaces", 1)
